@@ -29,12 +29,12 @@ type Clause struct {
 }
 
 type ModItem struct {
-	Expr   string // path expression
-	AllKind bool  // allmaps(path): the contents of every map of path's type
-	All2   bool   // path[*][*]: the contents of every map stored in the map
-	All    bool   // path[*]
-	GoName string
-	Loop   int
+	Expr    string // path expression
+	AllKind bool   // allmaps(path): the contents of every map of path's type
+	All2    bool   // path[*][*]: the contents of every map stored in the map
+	All     bool   // path[*]
+	GoName  string
+	Loop    int
 }
 
 type FuncContract struct {
@@ -71,13 +71,13 @@ type Anchor struct {
 // ChanInv: an invariant of every element travelling through channels of one element
 // type; `open` says that the environment never closes such channels.
 type ChanInv struct {
-	Pkg    string
-	Elem   string // element type as written, e.g. *Item[V]
+	Pkg     string
+	Elem    string // element type as written, e.g. *Item[V]
 	TParams string
-	Param  string
-	Expr   string
-	Open   bool
-	GoName string
+	Param   string
+	Expr    string
+	Open    bool
+	GoName  string
 }
 
 type GhostStmt struct {
@@ -109,31 +109,31 @@ type Lemma struct {
 }
 
 type LockInv struct {
-	Pkg   string
-	Type  string // struct type name owning the mutex
-	Mutex string // field path of the mutex within the type ("" = embedded)
-	Param string // name used for the object in Expr
-	Expr  string
-	Tags  []string
-	GoName string
-	Rely   string // two-state relation other goroutines respect on the guarded state (old = before the yield)
-	RelyGo string
-	Guards []*ModItem // locations guarded by the mutex (paths from the owner)
+	Pkg     string
+	Type    string // struct type name owning the mutex
+	Mutex   string // field path of the mutex within the type ("" = embedded)
+	Param   string // name used for the object in Expr
+	Expr    string
+	Tags    []string
+	GoName  string
+	Rely    string // two-state relation other goroutines respect on the guarded state (old = before the yield)
+	RelyGo  string
+	Guards  []*ModItem // locations guarded by the mutex (paths from the owner)
 	TParams string
 }
 
 type ContractFile struct {
-	Pkg     string
-	Path    string
-	Imports []string
-	Specs   []*Spec
-	Funcs   []*FuncContract
-	Lemmas  []*Lemma
+	Pkg      string
+	Path     string
+	Imports  []string
+	Specs    []*Spec
+	Funcs    []*FuncContract
+	Lemmas   []*Lemma
 	LockInvs []*LockInv
-	Decls   []string // raw Go declarations (ghost vars, helper types)
+	Decls    []string // raw Go declarations (ghost vars, helper types)
 	ChanInvs []*ChanInv
-	Ranks   map[string]int
-	Shared  []string // locations accessed with sync/atomic by several goroutines: "Type.field" or "cell T"
+	Ranks    map[string]int
+	Shared   []string // locations accessed with sync/atomic by several goroutines: "Type.field" or "cell T"
 }
 
 func (fc *FuncContract) Key() string {
@@ -528,12 +528,14 @@ func splitTop(s string, sep byte) []string {
 }
 
 // rewriteExpr turns the contract expression language into plain Go:
-//   forall x T :: e      -> gcForall(func(x T) bool { return e })
-//   exists x T :: e      -> gcExists(func(x T) bool { return e })
-//   a ==> b              -> gcImplies(a, b)        (lowest precedence, right assoc)
-//   a <==> b             -> (a) == (b)
-//   old(e)               -> gcOld(e)
-//   ite(c, a, b)         -> gcIte(c, a, b)
+//
+//	forall x T :: e      -> gcForall(func(x T) bool { return e })
+//	exists x T :: e      -> gcExists(func(x T) bool { return e })
+//	a ==> b              -> gcImplies(a, b)        (lowest precedence, right assoc)
+//	a <==> b             -> (a) == (b)
+//	old(e)               -> gcOld(e)
+//	ite(c, a, b)         -> gcIte(c, a, b)
+//
 // Everything else is Go and is type-checked by go/types.
 func rewriteExpr(s string) string {
 	s = strings.TrimSpace(s)
@@ -760,4 +762,6 @@ func gcSum[K comparable](m map[K]int64) int64 { var s int64; for _, v := range m
 func gcCard[K comparable, V any](m map[K]V) int { return len(m) }
 func gcHas[K comparable, V any](m map[K]V, k K) bool { _, ok := m[k]; return ok }
 func gcSameArray[T any](a, b []T) bool { return len(a) > 0 && len(b) > 0 && &a[0] == &b[0] }
+func gcSameStorage[T any](a, b []T) bool { return false }
+func gcWithin[T any](a, b []T) bool { return false }
 `
